@@ -94,7 +94,7 @@ def check_body(ck, rid, facts, r, op, ks, num, fields, ev):
                      sample="%s = %s" % (fld, w.fmt()[:200]))
         # result carries the variable list of an operand (or of the aligned pair)
         vv = val.fields.get("vars")
-        okv = isinstance(vv, cel.Sym) and vv.tag and vv.tag[0] == "vars"
+        okv = isinstance(vv, cel.Sym) and vv.tag and vv.tag[0] in ("vars", "novars")  # novars: a float promoted by new(f, []) (then aligned by the union arm)
         ck.check(rid, "%s%s:vars" % (short, tag), okv, "result does not carry an operand's variable list: %r" % (vv,), where, sample=repr(vv))
 
 
